@@ -322,6 +322,29 @@ CLAIMED = {
         'XlOps.tla, alpha/gamma in harness/values.py (numbers compared with '
         'relative tolerance 1e-9).',
         'DESIGN.md 4/C02'),
+    'C20': (
+        'TLC model checking of Calendar.tla (month machine, 97 200 states), '
+        'TimeOfDay.tla, Radix.tla (numeral prefix trees with limb arithmetic) '
+        'and Roman.tla + replay of every month / second / numeral on the real '
+        'functions + TLC trace validation of sampled numerals and of all '
+        'ROMAN results',
+        'Calendar.tla walks the months 1900-01 .. 9999-12 with the serial of '
+        'each first day (1900 a leap year, serial 60 fictitious): LenOK, '
+        'LastSerial = 2958465, WeekdayStep across every month boundary in the '
+        '10 numbering modes; for every month state the real YEAR / MONTH / DAY '
+        '/ DATE / WEEKDAY are checked on its days (quick: 3 first, 3 last, 2 '
+        'sampled; thorough: all 2 958 465), plus day 0 and the domain ends. '
+        'All 86 400 seconds through TIME -> HOUR / MINUTE / SECOND. Radix.tla '
+        'enumerates all binary numerals and all octal / hex numerals over '
+        'boundary digits (two\'s complement by limb arithmetic); each is '
+        'checked on X2DEC, DEC2X (places padding / #NUM!), and the cross '
+        'conversions; sampled 10-digit numerals are validated by the trace '
+        'part; out-of-range decimals give #NUM!. ROMAN(n, form) for all '
+        '4000 x 5 is validated by Roman.tla (Val(result) = n, form 0 = '
+        'Classic(n)) and ARABIC inverts it on the code.',
+        'Trusted: TLC; for ROMAN/ARABIC out of domain any error value is '
+        'accepted (Excel documents #VALUE!).',
+        'DESIGN.md 4/C20'),
 }
 
 REASON_PENDING = 'check not built yet in this round (planned, see DESIGN.md section 8)'
